@@ -3,7 +3,7 @@ import z3
 from pyvc.api import *
 from pyvc.values import SV, MNS
 
-SPEC_FUNCTIONS = ['is_prefix', 'fold_case']
+SPEC_FUNCTIONS = ['is_prefix', 'fold_case', 'valid_path']
 
 
 def is_prefix(p, s):
@@ -13,6 +13,12 @@ def is_prefix(p, s):
 
 def fold_case(s, insensitive):
     return s.lower() if insensitive else s
+
+
+def valid_path(p):
+    """str(Path(x)) is normalised: non-empty, no doubled or trailing separator"""
+    s = str(p)
+    return s != '' and '//' not in s and (s == '/' or not s.endswith('/'))
 
 
 def settings_ns():
